@@ -5,6 +5,7 @@ import (
 	"encoding/json"
 	"fmt"
 	"os"
+	"sort"
 	"os/exec"
 	"path/filepath"
 	"strings"
@@ -67,6 +68,30 @@ func c17Static(o *out) {
 		}
 	}
 	o.extra["functions_analysed"] = len(es)
+	// read sets are compared on the variables something writes after initialisation; a variable nothing writes may be
+	// read by any number of goroutines
+	written := map[string]bool{}
+	for _, e := range es {
+		if !e.IsInit {
+			for _, g := range e.GlobalWrites {
+				written[g] = true
+			}
+		}
+	}
+	var ws []string
+	for g := range written {
+		ws = append(ws, g)
+	}
+	sort.Strings(ws)
+	racyReads := func(gs []string) []string {
+		out := []string{}
+		for _, g := range gs {
+			if written[g] {
+				out = append(out, g)
+			}
+		}
+		return out
+	}
 	var b sb
 	b.open()
 	first := true
@@ -76,7 +101,7 @@ func c17Static(o *out) {
 			b.sp()
 		}
 		first = false
-		b.open(); b.text(n); b.sp(); b.texts(e.GlobalReads); b.sp(); b.texts(e.GlobalWrites); b.sp(); b.open()
+		b.open(); b.text(n); b.sp(); b.texts(racyReads(e.GlobalReads)); b.sp(); b.texts(e.GlobalWrites); b.sp(); b.open()
 		for i, p := range e.ParamWrites {
 			if i > 0 {
 				b.sp()
@@ -108,7 +133,9 @@ func c17Static(o *out) {
 		}
 	}
 	b.close()
-	o.addCaseVM("(31)", b.String(), "footprint table of the entry points", true)
+	var wb sb
+	wb.texts(ws)
+	o.addCaseVM("(31 "+wb.String()+")", b.String(), "footprint table of the entry points", true)
 }
 
 type c17Report struct {
